@@ -82,6 +82,18 @@ impl StreamBuilder {
 
     /// Appends another stream to this one.
     pub fn append(&mut self, mut other: StreamBuilder) {
+        // HTML buffered so far comes before the in-order chunks of the other stream
+        // (out-of-order chunks are independent of their position in the queue)
+        if other
+            .chunks
+            .iter()
+            .any(|chunk| !matches!(chunk, StreamChunk::OutOfOrder { .. }))
+        {
+            let sync = mem::take(&mut self.sync_buf);
+            if !sync.is_empty() {
+                self.chunks.push_back(StreamChunk::Sync(sync));
+            }
+        }
         self.chunks.append(&mut other.chunks);
         self.sync_buf.push_str(&other.sync_buf);
     }
